@@ -1,29 +1,21 @@
 #!/bin/bash
 # tools/selftest.sh [name...]  —  sensitivity self-test (not part of MANIFEST.json)
-# Applies each kept seeded change (seeded/<name>/patch.diff) to /repo's working tree, runs the quick check of the
-# property it was written against (plus the extra checks listed below), undoes the change, prints one line per change.
-# Evidence and replay files of these runs go to /tmp/seed-evidence, never to /verif/evidence.
+# Applies each kept seeded change (seeded/<name>/patch.diff) to a scratch worktree of /repo (never to /repo itself, see
+# tools/try_seed_isolated.sh), runs the quick check of the property it was written against (plus the extra checks
+# listed below) and prints one line per change.  Evidence of these runs goes to /tmp/seed-evidence.
 cd "$(dirname "$(readlink -f "$0")")/.." || exit 2
-declare -A EXTRA=( [C01-b]="C02" [C09-b]="C04" [C17-b]="C04" [C13-a]="C15" [C13-b]="C15" [C14-a]="C05" [C03-a]="C02" )
+declare -A EXTRA=( [C01-b]="C02" [C01-c]="C04" [C09-b]="C04" [C17-b]="C04" [C17-c]="C02" [C13-a]="C15" [C13-b]="C15" [C14-a]="C05" [C03-a]="C02" [C09-f]="C02" )
 names=("$@")
 if [ ${#names[@]} -eq 0 ]; then
     for d in seeded/*/; do n=$(basename "$d"); case "$n" in *obsolete*) ;; *) names+=("$n");; esac; done
 fi
-if ! git -C /repo diff --quiet; then echo "/repo has uncommitted changes"; exit 2; fi
 ok=0; miss=0
 for n in "${names[@]}"; do
     prop="${n%%-*}"
     checks="$prop ${EXTRA[$n]:-}"
-    git -C /repo apply "seeded/$n/patch.diff" 2>/dev/null || { echo "$n: patch does not apply"; continue; }
-    res=""
-    caught=no
-    for c in $checks; do
-        out=$(CGV_EVIDENCE_DIR=/tmp/seed-evidence ./run "$c" quick 2>&1); rc=$?
-        res="$res $c:rc=$rc"
-        [ $rc -eq 1 ] && echo "$out" | grep -q "^VIOLATION property=$c" && caught=yes
-    done
-    git -C /repo checkout -- . ; git -C /repo clean -fdq src
-    if [ $caught = yes ]; then ok=$((ok+1)); echo "$n: CAUGHT ($res )"; else miss=$((miss+1)); echo "$n: MISSED ($res )"; fi
+    out=$(tools/try_seed_isolated.sh "seeded/$n/patch.diff" $checks 2>&1)
+    if echo "$out" | grep -q "patch does not apply\|BUILD FAILED"; then echo "$n: NOT RUN ($(echo "$out" | grep -m1 "patch does not apply\|BUILD FAILED"))"; continue; fi
+    res=$(echo "$out" | grep "^== " | tr '\n' ' ')
+    if echo "$out" | grep -q "^VIOLATION property="; then ok=$((ok+1)); echo "$n: CAUGHT ($res)"; else miss=$((miss+1)); echo "$n: MISSED ($res)"; fi
 done
 echo "caught $ok, missed $miss"
-./run --build
